@@ -996,10 +996,28 @@ namespace occa {
       const int tokenCount = (int) lineTokens.size();
       for (int i = 0; i < tokenCount; ++i) {
         token_t *token = lineTokens[i];
+        if (token->type() & tokenType::primitive) {
+          // Conditions are evaluated in intmax_t / uintmax_t: an integer is
+          //   unsigned only with a 'u' suffix or if it doesn't fit intmax_t
+          primitiveToken &pToken = token->to<primitiveToken>();
+          primitive &value = pToken.value;
+          if (value.isInteger() || value.isBool()) {
+            const bool hasU = (pToken.strValue.find_first_of("uU") != std::string::npos);
+            const std::string source = value.source;
+            if (hasU ||
+                (value.isUnsigned() && (value.to<uint64_t>() > (uint64_t) INT64_MAX))) {
+              value = (uint64_t) value.to<uint64_t>();
+            } else {
+              value = (int64_t) value.to<int64_t>();
+            }
+            value.source = source;
+          }
+          continue;
+        }
         if (!(token->type() & tokenType::identifier)) {
           continue;
         }
-        lineTokens[i] = new primitiveToken(token->origin, 0, "0");
+        lineTokens[i] = new primitiveToken(token->origin, (int64_t) 0, "0");
         delete token;
       }
 
